@@ -1290,6 +1290,8 @@ class Interp:
 
     def iterate(self, it, loop_key=None):
         """Concrete list of the elements of an iterable, or Unsupported."""
+        if it is None or isinstance(it, (bool, int, float)):
+            raise self.exc("TypeError", f"'{type(it).__name__}' object is not iterable")
         if isinstance(it, (list, tuple)):
             return list(it)
         if isinstance(it, range):
